@@ -237,6 +237,7 @@ var c08Lexical = []string{
 	"//a ", " //a", "//a　|　//b", "1 + 1", "1 + 1", "//a\u000b", "\ufeff//a", "//_x", "//_", "//#x", "//x#", "//é", "//É", "//a·b", "//a:b:c", "//:a", "//a:", "$:v", "$", "$1", "$v:", "$v:w:x",
 	"string-length('x  y')", "string-length('x y')", "string-length('x\ty')", "string-length( 'x y' )", "concat('a','b ')", "concat('a','b')", "concat('a', 'b')", "concat('A','b')", "translate('a\tb',' ','_')", "translate('a b',' ','_')",
 	"p : f()", "p :f()", "p: f()", "p:f ()", "p : f ( 1 )", "f ()", "f( )", "$p:v + 1", "$p : v", "$p :v", "$p: v", "$ p:v", "p : f(p : a)", "count(p : *)",
+	"1/not('s')", "'a'/string-length()", "1/count(//a)", "//a/string()/string-length()", "count(//a)/string()", "true()/not(1)", "//a/name()/.", "(1)/f()", "$v/string()", "//a/string()", "//a/count(*)",
 	". 5", "1 . 5", "1. 5", "1 .5", "1 .", ". 1 + 1", "//a[. 1]", "//nosuch[. 1]", "//nosuch[1 . 5]", "//nosuch[1. 5]", "child [ . 1 ]", "0 and . 1", "count(//nosuch[.\n1])", "1 . . 1", ".\t5", "1 .. 5", "1 ./a", "1.5 .5",
 	"", " ", "\n", "\t \n", "//a\x00", "//a\x80", "\xff", "//a<!--c-->", "//a(:c:)", "{1}", "//a{", "`a`", "//a;", "//a#", "#", "#a", "//#", "a#b", "//a\\b", "1 % 2", "1 ^ 2", "1 & 2", "1 && 2", "~1", "!1", "a?b", "//a ? //b",
 }
